@@ -143,6 +143,25 @@ def run_impl(case):
             tp = extract(docp.root)
             tq = extract(impl.TagNode.parse(xml, parser_options=ParserOptions(reduce_whitespace=True)))
             return {"xml": xml, "t0": t0, "t1": t1, "t2": t2, "tp": tp, "tq": tq}
+        if route == "edited":
+            # a document loaded WITH the option, then edited through the API, then reduced by the method
+            xml = to_xml(t)
+            doc = Document(xml, parser_options=ParserOptions(reduce_whitespace=True))
+            with impl.altered_default_filters():
+                for kind, target_i, items in case["edits"]:
+                    tags = [doc.root] + [n for n in doc.root.iterate_descendants(impl.is_tag_node)]
+                    target = tags[target_i % len(tags)]
+                    nodes = [i[1] if i[0] == "text" else build(i) for i in items]
+                    if kind == "append":
+                        target.append_children(*nodes)
+                    else:
+                        target.insert_children(0, *nodes)
+            t0 = extract(doc.root)
+            doc.reduce_whitespace()
+            t1 = extract(doc.root)
+            doc.reduce_whitespace()
+            t2 = extract(doc.root)
+            return {"xml": xml, "t0": t0, "t1": t1, "t2": t2, "tp": None}
         root = build(t)
         doc = Document(root)
         t0 = extract(doc.root)
@@ -182,6 +201,8 @@ def check_cases(ctx, cases):
         i += 2
         ctx.count(1, c["route"] + ("/merged" if is_merged(r["t0"]) else "/adjacent"))
         case = {"route": c["route"], "tree": c["tree"], "t0": r["t0"], "xml": r.get("xml")}
+        if "edits" in c:
+            case["edits"] = c["edits"]
         if r["t1"] != r["t0"]:
             ctx.nontrivial_case(r["t0"])
         ctx.sample({"route": c["route"], "before": r["t0"], "after": r["t1"]})
@@ -218,10 +239,15 @@ def shrink_failures(ctx):
     shrunk = []
     for what, f in by_what.items():
         base = {"route": f["case"]["route"], "tree": tuple_tree(f["case"]["tree"])}
+        if "edits" in f["case"]:
+            base["edits"] = f["case"]["edits"]
 
         def reductions(c):
             for t in common.tree_reductions(c["tree"]):
-                yield {"route": c["route"], "tree": t}
+                yield dict(c, tree=t)
+            for i in range(len(c.get("edits", []))):
+                if len(c["edits"]) > 1:
+                    yield dict(c, edits=c["edits"][:i] + c["edits"][i + 1:])
 
         def failing_whats(cands):
             sub = common.Ctx(ctx.prop, ctx.tier, ctx.seed)
@@ -257,7 +283,10 @@ def run(ctx, args):
             rep = json.load(f)
         case = rep.get("case")
         if case:
-            check_cases(ctx, [{"route": case["route"], "tree": tuple_tree(case["tree"])}])
+            rc = {"route": case["route"], "tree": tuple_tree(case["tree"])}
+            if "edits" in case:
+                rc["edits"] = [(k, i, [tuple_tree(x) if x[0] == "tag" else tuple(x) for x in items]) for k, i, items in case["edits"]]
+            check_cases(ctx, [rc])
         return ctx.finish("replay of " + args.replay, replay_open=replay_open)
     cases = []
     # corpus first
@@ -275,13 +304,29 @@ def run(ctx, args):
         api = ctx.rng.random() < 0.35
         t = gen_tree(ctx.rng, 3, allow_empty_text=api)
         cases.append({"route": "api" if api else "parse", "tree": t})
+    # histories: load with the option, edit through the API, reduce with the method
+    for i in range(150 if quick else 3000):
+        t = gen_tree(ctx.rng, 2, allow_empty_text=False)
+        edits = []
+        for _ in range(ctx.rng.choice([1, 1, 2, 3])):
+            items = []
+            for _ in range(ctx.rng.choice([1, 1, 2, 3])):
+                r = ctx.rng.random()
+                if r < 0.7:
+                    items.append(("text", ctx.rng.choice([x for x in TEXTS if x])))
+                elif r < 0.85:
+                    items.append(("comment", " c "))
+                else:
+                    items.append(("tag", "", "n", [], [("text", ctx.rng.choice([x for x in TEXTS if x]))]))
+            edits.append((ctx.rng.choice(["append", "prepend"]), ctx.rng.randrange(8), items))
+        cases.append({"route": "edited", "tree": t, "edits": edits})
     check_cases(ctx, cases)
     shrink_failures(ctx)
     return ctx.finish(
         rule="documents: exhaustive arrangements of <=3 children out of 8 whitespace text forms, empty/non-empty element, "
              "comment (with/without xml:space=preserve on the root) + random mixed-content trees of depth <=3 with "
              "nested xml:space directives incl. invalid values; parsed from XML text (merged) and built through the API "
-             "(adjacent and empty text nodes). Non-trivial = reduction changed the tree; distinct by the tree before reduction.",
+             "(adjacent and empty text nodes), and histories (loaded with the option, edited through the API, reduced by the method). Non-trivial = reduction changed the tree; distinct by the tree before reduction.",
         replay_open=replay_open)
 
 
